@@ -388,8 +388,9 @@ def buffered_judge(ctx, cases, label, clauses, mech=True):
         vlib.report(ctx, mine, rec, component="pipe", case=rec["case"], kind="schedule")
     if mech:
         buffered_mechanism(ctx, obs, obs_path, label)
-    if obs and len(ctx.samples) < 6:
-        r = obs[len(obs) // 3]
+    okobs = [r for r in obs if r.get("st") == "ok"]
+    if okobs and len(ctx.samples) < 6:
+        r = okobs[len(okobs) // 3]
         ctx.samples.append({"source": label, "cap": r["cap"], "N": r["N"], "ctl": r["ctl"],
                             "schedule": r.get("sched", [])[:60],
                             "events": ["%s(%s)" % (e["e"], e["x"]) for e in r["ev"][:60]]})
